@@ -139,3 +139,19 @@ Theorem C17_link_shared_packet_refuted :
     cells acts = [O; O] /\ commanded acts = [Some 1%Z; Some 2%Z] /\ ldrain (lrun acts l_init) = [Some 2%Z; Some 2%Z].
 Proof. exact link_shared_packet_refuted. Qed.
 Print Assumptions C17_link_shared_packet_refuted.
+
+(* The quantifier of the displacement clause, explicit: for ALL velocities v <> 0 (no bounded range: 0.01 m/s as well as
+   50 m/s) and all distances, the streamed velocity times the sleep duration distance / velocity is the distance, per axis
+   for the direction vector the code computes.  (C17_primitive_displacement instantiates this inside the action lists.) *)
+Theorem C17_displacement_for_all_velocities : forall v d dx dist,
+  ~ v == 0 -> (v * (d / v) == d) /\ (~ dist == 0 -> (v * dx / dist) * (dist / v) == dx).
+Proof. intros v d dx dist H. split; [apply velocity_times_duration; exact H|intros H2; apply axis_velocity_times_duration; assumption]. Qed.
+Print Assumptions C17_displacement_for_all_velocities.
+
+(* ... and the duration belongs to the velocity that is streamed: a setpoint clamped at vmax but held for the duration of
+   the unclamped velocity falls short (witness 2 m/s capped at 1 m/s over 1 m: 0.5 m), always so above the cap *)
+Theorem C17_clamped_setpoint_refuted :
+  (exists vmax v d, 0 < vmax /\ vmax < v /\ ~ qclamp vmax v * (d / v) == d) /\
+  (forall vmax v d, 0 < vmax -> vmax < v -> 0 < d -> qclamp vmax v * (d / v) < d).
+Proof. split; [exact clamped_setpoint_refuted|exact clamped_setpoint_short]. Qed.
+Print Assumptions C17_clamped_setpoint_refuted.
